@@ -363,6 +363,53 @@ def delivery_is_history_independent(H, case):
     H.cover("reached")
 
 
+@contract("mappings_follow_output_slots", ["C20", "C08"], targets=_T[:3] + ["rv.project:Project.connect"],
+          cases=lambda tier: [(f"hole={h},{ctx}", (h, ctx)) for h in (0, 1) for ctx in ("in_memory", "reloaded")])
+def mappings_follow_output_slots(H, case):
+    """History: macro over a.volume and b.volume, a third target c linked WITHOUT a mapping, then one of the two
+    mapped targets is disconnected and its mapping cleared - the MultiCtl's output table now has a freed slot
+    in front of / between live slots (also after save + load, where the reader rebuilds the table with the hole).
+    ensures, for every input, gain and window: the i-th mapping still belongs to the i-th output SLOT - the
+    remaining mapped target receives exactly what a fresh single-link MultiCtl delivers, the unmapped target and
+    the retired one keep their (symbolic) values, nothing raises."""
+    import io
+
+    from rv.readers.reader import read_sunvox_file
+
+    hole, ctx = case
+    p = Project()
+    a, b, c = (p.new_module(Amplifier, name=n) for n in "abc")
+    mc = MultiCtl.macro(p, (a, "volume"), (b, "volume"), name="macro")
+    p.connect(mc, c)
+    retired, kept = (a, b) if hole == 0 else (b, a)
+    p.connect(mc, ~retired)
+    mc.mappings.values[hole].controller = 0
+    if ctx == "reloaded":
+        p = read_sunvox_file(io.BytesIO(p.read()))
+        mc, retired, kept, c = (p.modules[x.index] for x in (mc, retired, kept, c))
+    slots = list(mc.out_links)
+    H.check("output_table_has_the_freed_slot", slots[hole] == -1 and slots[1 - hole] == kept.index and slots[2] == c.index)
+    value, gain = H.int("value", 0, 32768), H.int("gain", 0, 1024)
+    wmin, wmax = H.int("wmin", 0, 32768), H.int("wmax", 0, 32768)
+    orient = H.choice("window", ["normal", "reversed"])
+    H.assume(wmin <= wmax if orient == "normal" else wmin > wmax)
+    c0, r0 = H.int("c.volume", 0, 1024), H.int("retired.volume", 0, 1024)
+    c.controller_values["volume"] = c0
+    retired.controller_values["volume"] = r0
+    mc.controller_values["gain"] = gain
+    mc.controller_values["quantization"] = 32768
+    mp = mc.mappings.values[1 - hole]
+    mp.min, mp.max = wmin, wmax
+    K.strict()
+    exc, _ = H.raises(H.setattr, mc, "value", value)
+    exc2, want, _t = _deliver(H, "Amplifier", "volume", value, gain, wmin, wmax)
+    H.check("no_delivery_raises", exc is None and exc2 is None)
+    H.check("mapped_target_behind_the_hole_gets_its_own_mapping", H.eq(kept.controller_values["volume"], want))
+    H.check("unmapped_target_untouched", H.eq(c.controller_values["volume"], c0))
+    H.check("retired_target_untouched", H.eq(retired.controller_values["volume"], r0))
+    H.cover("reached")
+
+
 @contract("fanout_canary", ["C20"], targets=_T[:2], canary=True)
 def fanout_canary(H, _):
     """False claim: the delivered Amplifier.volume never reaches the maximum."""
